@@ -281,6 +281,28 @@ def check_csv(run, idxs, ti):
             O.fail('C02.legacy_csv.tags', w, sorted(tags), sorted(got))
 
 
+def check_csv_regex_shapes(run):
+    """legacy CSV patterns that are ordinary regular expressions but look like expressions to the tuple loop's heuristic (_is_expression_pattern): a pattern
+    that starts with a parenthesis, or contains ' and ' / ' or '.  They are CSV rules like any other: first match in file order, tags accumulate."""
+    O = run.O
+    path = os.path.join(run.tmp, 'merchant_categories.csv')
+    body = ('(AAA|ZZZ),Grouped,CatG,SubG,grp\nAAA,Plain,CatP,SubP,\n')
+    body2 = ('bed bath and beyond,BBB Store,CatB,SubB,home\nBED,Bed,CatBed,SubBed,\n')
+    for text, desc, win, tags, shape in ((body, 'AAA STORE 123', ('Grouped', 'CatG', 'SubG'), {'grp'}, 'starts_with_parenthesis'),
+                                         (body2, 'BED BATH AND BEYOND 12', ('BBB Store', 'CatB', 'SubB'), {'home'}, 'contains_and')):
+        open(path, 'w').write('Pattern,Merchant,Category,Subcategory,Tags\n' + text)
+        O.case(('csv_shape', shape))
+        clear_engine_cache()
+        tuples = get_all_rules(path)
+        m, c, s, info = normalize_merchant(desc, tuples, amount=5.0, txn_date=date(2025, 3, 5), field=None, data_source='Amex')
+        clear_engine_cache()
+        w = {'csv_shape': shape, 'csv_text': text, 'description': desc}
+        if run.prop == 'C01' and (m, c, s) != win:
+            O.fail('C01.legacy_csv.regex_read_as_expression', w, win, (m, c, s), 'get_all_rules(csv)+normalize_merchant')
+        if run.prop == 'C02' and set((info or {}).get('tags', [])) != tags:
+            O.fail('C02.legacy_csv.regex_read_as_expression', w, sorted(tags), sorted((info or {}).get('tags', [])), 'get_all_rules(csv)+normalize_merchant')
+
+
 def check_transforms(run):
     """Field transforms are applied before matching (C01)."""
     O = run.O
@@ -350,6 +372,8 @@ def run(prop):
                     r.check(w['rules'], w['txn'], w['mode'])
                 elif 'csv_rules' in w:
                     check_csv(r, w['csv_rules'], w['txn'])
+                elif 'csv_shape' in w:
+                    check_csv_regex_shapes(r)
                 elif 'list_tag_case' in w:
                     check_list_valued_tags(r)
                 else:
@@ -376,6 +400,8 @@ def run(prop):
                             check_csv(r, list(idxs), ti)
             if prop == 'C02':
                 check_list_valued_tags(r)
+            if prop in ('C01', 'C02'):
+                check_csv_regex_shapes(r)
             if prop == 'C01':
                 check_transforms(r)
                 r.finish_unknown()
